@@ -120,19 +120,22 @@ package dispatcher
 //@ ghost var lastSecret []byte
 //@ ghost var selectAt time.Time
 //@ ghost var lastResolveErr error
+//@ ghost var resolveCalls int
 //@ ghost var lastPolicyErr error
 
 //@ iface dispatcher.resolver.LookupIPAddr(self, ctx, host) (addrs, err)
 
 //@ func resolveHostIPs
-//@   modifies resolvedIPs, lastResolveErr
+//@   modifies resolvedIPs, lastResolveErr, resolveCalls
 //@   sets resolvedIPs := result0
 //@   sets lastResolveErr := result1
+//@   sets resolveCalls := old(resolveCalls) + 1
 //@   ensures [no_need] !needIPs ==> result1 == nil && len(result0) == 0
-//@   ensures [tied] resolvedIPs == result0 && lastResolveErr == result1
+//@   ensures [tied] resolvedIPs == result0 && lastResolveErr == result1 && resolveCalls == old(resolveCalls) + 1
 
 //@ func checkEgressPolicyURL
-//@   modifies resolvedIPs, egressOKURL, lastResolveErr
+//@   modifies resolvedIPs, egressOKURL, lastResolveErr, resolveCalls
+//@   ensures [C06:a_resolver_failure_is_reported_unchanged_not_as_a_policy_denial] resolveCalls == old(resolveCalls) + 1 && lastResolveErr != nil ==> result == lastResolveErr
 //@   ensures [C06:every_refusal_is_a_policy_denial_or_the_resolver_error] result != nil ==> errIs(result, ErrPolicyDenied) || (result == lastResolveErr && (policy.DNSRebindProtection || anyCIDR(policy.Allow) || anyCIDR(policy.Deny)))
 //@   sets egressOKURL := ite(result == nil, u, old(egressOKURL))
 //@   loop 1 invariant [all_allowed] forall k int :: 0 <= k && k <= rangeindex ==> allowedIPSpec(ips[k])
@@ -144,7 +147,8 @@ package dispatcher
 //@   ensures [C16:ok_marks_url] (result == nil ==> egressOKURL == u) && (result != nil ==> egressOKURL == old(egressOKURL))
 
 //@ func checkEgressPolicy
-//@   modifies resolvedIPs, egressOKURL, lastResolveErr, lastPolicyErr
+//@   modifies resolvedIPs, egressOKURL, lastResolveErr, lastPolicyErr, resolveCalls
+//@   ensures [C06:a_resolver_failure_is_reported_unchanged_not_as_a_policy_denial] resolveCalls == old(resolveCalls) + 1 && lastResolveErr != nil ==> result == lastResolveErr
 //@   sets lastPolicyErr := result
 //@   ensures [tied] lastPolicyErr == result
 //@   ensures [C06:every_refusal_is_a_policy_denial_or_a_parse_or_resolver_error] result != nil ==> errIs(result, ErrPolicyDenied) || result == lastResolveErr || result == ext2("net/url.Parse", "$1", rawURL)
@@ -153,7 +157,8 @@ package dispatcher
 
 //@ func (*HTTPDeliverer).checkRedirect
 //@   requires d != nil && req != nil
-//@   modifies resolvedIPs, egressOKURL, lastResolveErr
+//@   modifies resolvedIPs, egressOKURL, lastResolveErr, resolveCalls
+//@   ensures [C06:a_resolver_failure_on_a_hop_is_reported_unchanged] resolveCalls == old(resolveCalls) + 1 && lastResolveErr != nil ==> result == lastResolveErr
 //@   ensures [C06:redirect_refusal_is_a_policy_denial] result != nil && result != http.ErrUseLastResponse ==> errIs(result, ErrPolicyDenied) || result == lastResolveErr
 //@   ensures [C16:redirect_hop_checked] result == nil ==> len(via) < 10 && egressOKURL == req.URL && req.URL != nil
 
